@@ -280,6 +280,7 @@ func (c *FnCtx) execCall(x *ssa.Call, common *ssa.CallCommon, st *State, reach *
 		}
 		c.g.unmodelled[name] = true
 		c.havocClosureWrites(common, st)
+		c.havocPointerArgs(name, common, st)
 		c.bumpNext(st)
 		c.setCallResults(x, sig, st, setResult)
 		c.copyOut(st, temps)
@@ -546,6 +547,12 @@ func (c *FnCtx) checkFrame(st *State, reach Term, env *Env) {
 		cur := st.heaps[k]
 		old, ok := c.entry.heaps[k]
 		if !ok || cur.S == old.S {
+			continue
+		}
+		// Objects of dependency types (datastores, timers, libp2p hosts, ...) are outside the verified
+		// state: no frame obligation for their heaps (listed once in the evidence).
+		if ct, ok := c.g.heapCell[k]; ok && c.g.externalType(ct) {
+			c.g.note("heaps of dependency types carry no frame obligations (their objects are outside the verified state)")
 			continue
 		}
 		if strings.HasPrefix(k, "G_") {
